@@ -261,6 +261,75 @@ def make_cases(chk) -> list[dict]:
                 steps.append(plain(f"select id, s, s2 from t where id >= {ids[0]} and id <= {ids[-1]} order by id"))
                 last_expect = None
         add("seq", style, steps, expect=last_expect)
+    # K7c: the SAME container object (dict / tuple / list / list of rows) bound in 2-3 successive executes: every execute must bind
+    # the values the caller put in, and the container must still be what the caller passed
+    for _ in range(max(40, n // 4)):
+        as_ = rnd.choice(["dict", "dict", "tuple", "list", "rows"])
+        style = "pyformat" if as_ == "dict" else rnd.choice(styles)
+        a, b = gen_value(rnd, rnd.choice(["str", "str", "None", "int", "bool", "float"])), gen_value(rnd, "str")
+        steps = []
+        reps = rnd.randint(2, 3)
+        if as_ == "dict":
+            pieces = [("lit", "select "), ("key", "a"), ("lit", ", "), ("key", "b")]
+            for _ in range(reps):
+                st = pstep(pieces, style, [a, b], mode="map", keys=["a", "b"])
+                st["share"] = "c"
+                steps.append(st)
+            exp = [[untyped(a, style), untyped(b, style)]]
+        elif as_ == "rows":
+            ids = [next_id() for _ in range(2)]
+            sets = [[V(i, "int", "N:" + enc_str(repr(i)), "n"), gen_value(rnd, "str")] for i in ids]
+            ins = [("lit", "insert into t (id, s) values ("), ("ph",), ("lit", ", "), ("ph",), ("lit", ")")]
+            for r in range(reps):
+                st = pstep(ins, style, None, many=sets, fetch=False)
+                st["share"], st["as"] = "c", rnd.choice(["tuple", "list"]) if r == 0 else steps[0]["as"]
+                steps.append(st)
+                steps.append(plain(f"select id, s from t where id >= {ids[0]} and id <= {ids[-1]} order by id, s"))
+                steps.append(plain(f"delete from t where id >= {ids[0]} and id <= {ids[-1]}", fetch=False))
+            steps.pop()
+            exp = [[("int", i), ("str", st_[1].py)] for i, st_ in zip(ids, sets)]
+        else:
+            pieces = [("lit", "select "), ("ph",), ("lit", ", "), ("ph",)]
+            for _ in range(reps):
+                st = pstep(pieces, style, [a, b])
+                st["share"], st["as"] = "c", as_
+                steps.append(st)
+            exp = [[untyped(a, style), untyped(b, style)]]
+        add("reuse", style, steps, expect=exp)
+    # K7d: MERGE carries bound values into several generated statements (ON condition, UPDATE SET, INSERT VALUES)
+    for _ in range(max(30, n // 5)):
+        style = rnd.choice(["pyformat", "format", "pyformat", "qmark"])
+        p0, p1, p2 = v_str("no-such-" + gen_str(rnd).replace("\x00", "")), gen_value(rnd, "str"), gen_value(rnd, "str")
+        if style == "qmark":
+            p1, p2 = v_str("q1"), v_str("q2")
+        merge = [("lit", "merge into tgt using src on tgt.id = src.id and src.v <> "), ("ph",), ("lit", " when matched then update set v = "), ("ph",),
+                 ("lit", " when not matched then insert (id, v) values (src.id, "), ("ph",), ("lit", ")")]
+        steps = [plain("create or replace table tgt (id int, v varchar)", fetch=False), plain("insert into tgt values (1, 'one'), (2, 'two')", fetch=False),
+                 plain("create or replace table src (id int, v varchar)", fetch=False), plain("insert into src values (2, 's2'), (3, 's3')", fetch=False),
+                 pstep(merge, style, [p0, p1, p2]), plain("select id, v from tgt order by id")]
+        add("merge", style, steps, expect=[[("int", 1), ("str", "one")], [("int", 2), ("str", p1.py)], [("int", 3), ("str", p2.py)]])
+        if style == "qmark":
+            # placeholders per generated statement for this template (candidates: ON; update: SET + ON; insert: VALUES; counts: none)
+            cases[-1]["explode"] = ("1;2;1;0", 3)
+    # K7e: the same kinds on an instance with un-anchored nop_regexes, with bound values that CONTAIN text the patterns match
+    words = ["create stage", "CREATE   STAGE s", "call foo()", " call x", "grant all", "alter session set x = 1", "x create stage y"]
+    for _ in range(max(40, n // 4)):
+        style = rnd.choice(styles)
+        v = v_str(rnd.choice(["", gen_str(rnd)]) + rnd.choice(words) + rnd.choice(["", gen_str(rnd)]))
+        k = rnd.random()
+        if k < 0.35:
+            add("select1", style, [pstep(sel([[("ph",)]], rnd), style, [v])], expect=[[untyped(v, style)]])
+        elif k < 0.7:
+            kid = next_id()
+            ins = [("lit", f"insert into t (id, s) values ({kid}, "), ("ph",), ("lit", ")")]
+            add("typed", style, [pstep(ins, style, [v]), plain(f"select s from t where id = {kid}")], expect=[[typed(v)]])
+        else:
+            ids = [next_id() for _ in range(3)]
+            sets = [[V(i, "int", "N:" + enc_str(repr(i)), "n"), v if j == 1 else gen_value(rnd, "str")] for j, i in enumerate(ids)]
+            ins = [("lit", "insert into t (id, s) values ("), ("ph",), ("lit", ", "), ("ph",), ("lit", ")")]
+            add("many", style, [pstep(ins, style, None, many=sets, fetch=False), plain(f"select id, s from t where id >= {ids[0]} and id <= {ids[-1]} order by id")],
+                expect=[[("int", i), ("str", s_[1].py)] for i, s_ in zip(ids, sets)])
+        cases[-1]["nop"] = True
     # K8: wrong argument counts and `%` misuse (model: err) — must fail before anything is executed
     for _ in range(20 if chk.tier == "quick" else 200):
         k = next_id()
@@ -362,23 +431,48 @@ def _outcome(fn):
         return ("err", type(e).__name__, None, None)
 
 
-def _run_steps(conn, steps, which, one_cursor=False):
-    """which = real | spec | impl;  one_cursor: every step of the case on the SAME cursor (kind `seq`)"""
+def _container(st):
+    """the parameter container the caller passes: dict / tuple / list (`as`), list of tuples or lists for executemany"""
+    if st["many"] is not None:
+        return [(list if st.get("as") == "list" else tuple)(v.py for v in s) for s in st["many"]]
+    if st["mode"] == "map":
+        return {k: v.py for k, v in zip(st["keys"], st["vals"])} if len(st["keys"]) == len(st["vals"]) else {st["keys"][0]: st["vals"][0].py}
+    return (list if st.get("as") == "list" else tuple)(v.py for v in st["vals"])
+
+
+def _run_steps(conn, steps, which, one_cursor=False, mutated=None):
+    """which = real | spec | impl;  one_cursor: every step of the case on the SAME cursor (kind `seq`);
+    steps with the same `share` tag pass the SAME container object (kind `reuse`); `mutated` collects containers that
+    are not what the caller passed any more after the call"""
     outs = []
     shared = conn.cursor() if one_cursor else None
-    for st in steps:
+    containers = {}
+    for si, st in enumerate(steps):
         cur = shared or conn.cursor()
 
-        def go(st=st, cur=cur):
+        def go(st=st, cur=cur, si=si):
             if which == "real":
                 if st["mode"] == "raw":
                     cur.execute(st["cmd"], st["raw"])
-                elif st["many"] is not None:
-                    cur.executemany(st["cmd"], [tuple(v.py for v in s) for s in st["many"]])
-                elif st["mode"] == "map":
-                    cur.execute(st["cmd"], {k: v.py for k, v in zip(st["keys"], st["vals"])} if len(st["keys"]) == len(st["vals"]) else {st["keys"][0]: st["vals"][0].py})
-                elif st["mode"] == "seq":
-                    cur.execute(st["cmd"], tuple(v.py for v in st["vals"]))
+                elif st["mode"] in ("map", "seq") or st["many"] is not None:
+                    tag = st.get("share")
+                    if tag is not None and tag in containers:
+                        params, snap = containers[tag]
+                    else:
+                        params = _container(st)
+                        snap = repr(params)
+                        if tag is not None:
+                            containers[tag] = (params, snap)
+                    try:
+                        if st["many"] is not None:
+                            cur.executemany(st["cmd"], params)
+                        else:
+                            cur.execute(st["cmd"], params)
+                    finally:
+                        if mutated is not None and repr(params) != snap:
+                            mutated.append({"step": si, "passed": snap, "after": repr(params)})
+                            if tag is not None:
+                                containers[tag] = (params, repr(params))
                 else:
                     cur.execute(st["cmd"])
             else:
@@ -396,34 +490,44 @@ def _run_steps(conn, steps, which, one_cursor=False):
     return outs
 
 
+NOP_PATTERNS = [r"create\s+stage", "call ", "^grant ", r"alter\s+session"]   # matched with re.match: only at the start of the statement
+
+
 def _worker(shard):
     import fakesnow
     import snowflake.connector as sc
-    res = []
-    with fakesnow.patch():
-        conns = {}
-        for style in ("pyformat", "format", "qmark"):
-            sc.paramstyle = style
-            conns[style] = sc.connect(database="dr", schema="s")
-        sc.paramstyle = "pyformat"
-        conns["spec"] = sc.connect(database="ds", schema="s")
-        conns["impl"] = sc.connect(database="di", schema="s")
-        for c in (conns["pyformat"], conns["spec"], conns["impl"]):
-            c.cursor().execute(DDL)
-        for c in conns.values():
-            c.cursor().execute("set v1 = 'hello'")
-        for case in shard:
-            if case["kind"] == "snap":
-                res.append(_real_snap(case["ops"]))
-                continue
-            r = {"real": _run_steps(conns[case["style"]], case["steps"], "real", one_cursor=case["kind"] == "seq")}
-            if case.get("run_spec"):
-                r["spec"] = _run_steps(conns["spec"], case["steps"], "spec")
-            if case.get("run_impl"):
-                r["impl"] = _run_steps(conns["impl"], case["steps"], "impl")
-            res.append(r)
-        sc.paramstyle = "pyformat"
-    return res
+    res = {}
+    # cases flagged `nop` run on an instance with (un-anchored) nop_regexes: a bound value that merely contains text a pattern
+    # would match must not turn the statement into the success no-op
+    for nop in (False, True):
+        group = [(i, c) for i, c in enumerate(shard) if bool(c.get("nop")) == nop]
+        if not group:
+            continue
+        with fakesnow.patch(nop_regexes=NOP_PATTERNS if nop else None):
+            conns = {}
+            for style in ("pyformat", "format", "qmark"):
+                sc.paramstyle = style
+                conns[style] = sc.connect(database="dr", schema="s")
+            sc.paramstyle = "pyformat"
+            conns["spec"] = sc.connect(database="ds", schema="s")
+            conns["impl"] = sc.connect(database="di", schema="s")
+            for c in (conns["pyformat"], conns["spec"], conns["impl"]):
+                c.cursor().execute(DDL)
+            for c in conns.values():
+                c.cursor().execute("set v1 = 'hello'")
+            for i, case in group:
+                if case["kind"] == "snap":
+                    res[i] = _real_snap(case["ops"])
+                    continue
+                mutated = []
+                r = {"real": _run_steps(conns[case["style"]], case["steps"], "real", one_cursor=case["kind"] == "seq", mutated=mutated), "mutated": mutated}
+                if case.get("run_spec"):
+                    r["spec"] = _run_steps(conns["spec"], case["steps"], "spec")
+                if case.get("run_impl"):
+                    r["impl"] = _run_steps(conns["impl"], case["steps"], "impl")
+                res[i] = r
+            sc.paramstyle = "pyformat"
+    return [res[i] for i in range(len(shard))]
 
 
 def _real_snap(ops):
@@ -480,6 +584,9 @@ def _model_lines(cases):
                 index.append((ci, si, vi))
         if case.get("skel"):
             lines.append(f"params\tqmark\t{case['skel']}\t{len(case['steps'][0]['vals'])}")
+            index.append((ci, "skel", None))
+        if case.get("explode"):
+            lines.append(f"params\texplode\t{case['explode'][0]}\t{case['explode'][1]}")
             index.append((ci, "skel", None))
     return lines, index
 
@@ -543,7 +650,8 @@ def _attach_model(cases, replies, index):
 # verdicts
 # ------------------------------------------------------------------------------------------------
 def _describe(case):
-    d = {"kind": case["kind"], "style": case["style"], "note": case.get("note"),
+    d = {"kind": case["kind"], "style": case["style"], "note": case.get("note"), "nop": bool(case.get("nop")),
+         "share": [st.get("share") for st in case["steps"]], "as": [st.get("as") for st in case["steps"]],
          "steps": [{"cmd": st["cmd"], "params": (st.get("raw") if st["mode"] == "raw" else
                                                  [[repr(v.py) for v in s] for s in st["many"]] if st["many"] is not None else
                                                  {k: repr(v.py) for k, v in zip(st["keys"], st["vals"])} if st["mode"] == "map" else
@@ -583,6 +691,8 @@ def _judge(chk, case, res):
                 problems.append(f"wrong number of qmark values accepted: {last}")
         if "spec" in res and res["spec"] != real:
             problems.append(f"differs from executing the statement with the values written as literals: real={_short(real)} literal={_short(res['spec'])} (text {case['steps'][0]['spec']!r})")
+    for m in res.get("mutated", []):
+        problems.append(f"the caller's parameter container was changed by the call: step {m['step']} passed {m['passed']}, afterwards it is {m['after']}")
     if "impl" in res and not problems and res["impl"] != real:
         # the property holds on this case but the model of the code's text is wrong: model/harness problem
         chk.violation(f"model text executes differently from the real call: real={_short(real)} model-text={_short(res['impl'])} text={case['steps'][0]['impl']!r}",
@@ -605,6 +715,8 @@ def _judge(chk, case, res):
             fb = [b for b in common.dec_list(st0["replies"][0].get("fbits", "[]")) if b != "-"]
             predicted = (case["kind"] == "typed" and last[0] == "rows" and len(last[1]) == 1 and last[1][0][0][0] in ("flt", "int") and len(fb) == 1
                          and struct.pack("<d", float(last[1][0][0][1])) == struct.pack("<Q", int(fb[0])) and res.get("impl", real) == real)
+        elif key == "C08/qmark-merge":
+            predicted = ("err", "InvalidInputException", None, None) in real and case["skel_reply"]["impl"] == "0"
         elif key == "C08/qmark-duplicated":
             predicted = last == ("err", "InvalidInputException", None, None) and case["skel_reply"]["impl"] == "0"
         if predicted:
@@ -867,7 +979,12 @@ def replay(chk, case) -> None:
                               "vals": [_v_from(_ev(v)) for v in p], "keys": None, "many": None, "fetch": True})
             else:
                 steps.append({"cmd": st["cmd"], "spec_cmd": st["cmd"], "mode": "none", "vals": [], "keys": None, "many": None, "fetch": True})
-        cases = [{"kind": kind, "style": case["style"], "steps": steps, "expect": None, "skel": None, "note": case.get("note")}]
+        for st, sh, as_ in zip(steps, case.get("share") or [], case.get("as") or []):
+            if sh is not None:
+                st["share"] = sh
+            if as_ is not None:
+                st["as"] = as_
+        cases = [{"kind": kind, "style": case["style"], "steps": steps, "expect": None, "skel": None, "note": case.get("note"), "nop": case.get("nop", False)}]
     _execute(chk, cases)
 
 
